@@ -2,14 +2,14 @@ SPECIFICATION Spec
 CONSTANTS
   NG = 2
   MaxCalls = 1
-  ShapeNames <- InlineShapes
+  ShapeNames <- FailThenGood
   AllowReg = FALSE
-  CopyOpts = FALSE
+  CopyOpts = TRUE
   TightCap = TRUE
   CopyArgs = TRUE
   HtmlDep = FALSE
   LazyInit = FALSE
-  PoolBuf = FALSE
+  PoolBuf = TRUE
 VIEW View
-INVARIANT SharedReadOnly
+INVARIANT Deterministic
 CHECK_DEADLOCK FALSE
